@@ -15,7 +15,7 @@ Toks(s) == {[ip |-> "a", ep |-> s.cur, self |-> TRUE], [ip |-> "a", ep |-> s.cur
             [ip |-> "a", ep |-> s.cur, self |-> FALSE], NoTok}
 Keys == {"k1", "k2"}
 Salts == {<<"", 0>>, <<"s1", 2>>, <<"sbig", 65>>}
-MVals == {<<"w1", 5>>, <<"wbig", 1001>>}
+MVals == {<<"w1", 5>>, <<"w2", 7>>, <<"wbig", 1001>>}
 IVals == {<<"v1", 10>>, <<"vmax", 1000>>, <<"vbig", 1001>>}
 
 MutTargets == {<<"m", k, sl[1]>> : k \in Keys, sl \in Salts}
